@@ -335,8 +335,13 @@ package transport
 // ---- C16 / C07: closing the system transport closes the pty AND kills the ssh process. The pty master is in blocking
 // mode, so a read parked in it is not interrupted by closing the file; it returns only when the child is gone (EIO).
 // Killing is what guarantees that - a signal the child may handle or ignore does not.
+//@ ghost nPtyClosed int local
+//@ ghost nKilled int local
 //@ func (*System).Close [C16 C07]
 //@   nosafety
+//@   after call Close#1 set nPtyClosed = nPtyClosed + 1
+//@   after call Kill#1 set nKilled = nKilled + 1
+//@   at return assert #on-every-way-out-the-pty-was-closed-once-and-a-started-ssh-process-killed-once nPtyClosed == old(nPtyClosed) + 1 && (t.c != nil && t.c.Process != nil ==> nKilled == old(nKilled) + 1)
 //@   at call! Close#1 assert #the-pty-is-closed recv == old(t.fd)
 //@   at call! Kill#1 assert #the-ssh-process-is-killed-not-asked-to-leave recv == t.c.Process
 //@   at return assert #the-transport-is-no-longer-alive t.fd == nil
